@@ -460,7 +460,10 @@ func (g *gen) build() {
 				o := *full.H2
 				o.Data = append([]h2data{}, data[:j]...)
 				o.UseTrailers, o.HdrEnd, o.After, o.NData = false, false, kind, j
-				x := &exch{Proto: "h2", A: a, H2: &o, Method: "GET", Mode: hk.Pick(rng, modes), SegK: "one", Pat: hk.Pick(rng, patterns), Cut: true, DelayMs: 30}
+				// arrival timing: the frames and the end of the connection written in one burst or one by one; the
+				// caller reading at once or late (everything at the client before the first Read)
+				x := &exch{Proto: "h2", A: a, H2: &o, Method: "GET", Mode: hk.Pick(rng, modes), SegK: hk.Pick(rng, []string{"one", "batch"}),
+					Pat: hk.Pick(rng, patterns), Cut: true, DelayMs: hk.Pick(rng, []int{0, 30, 30})}
 				for _, d := range o.Data {
 					x.CutAt += d.Len
 				}
